@@ -23,11 +23,16 @@ func c16(p Params) func() {
 		checkerRuns := 0
 		verdicts := []string{"accept", "reject", "reject_with_ret"}
 		verdict := verdicts[vsched.Choose(len(verdicts), "verdict")]
+		renames := vsched.Choose(2, "setid") == 1
 		checker := auth.NewCheckerPlugin(func(sess auth.Session, recv auth.RecvOnce) (interface{}, *erpc.Status) {
 			checkerRuns++
 			var token string
 			if st := recv(&token); !st.OK() {
 				return nil, st
+			}
+			if renames {
+				// checkers commonly name the session after the claimed identity before they verify it
+				sess.SetID("user-7")
 			}
 			if token != "good" {
 				return nil, erpc.NewStatus(erpc.CodeUnauthorized, "bad token", "")
@@ -75,7 +80,12 @@ func c16(p Params) func() {
 		}
 		npipe := vsched.Choose(3, "pipelined")
 		when := vsched.Choose(2, "when") // 0: app frames right behind the first message, 1: after reading the verdict
-		ctxt := fmt.Sprintf("first=%s verdict=%s pipelined=%d when=%d", first.name, verdict, npipe, when)
+		// the client may hang up right after its credentials, before the verdict can be delivered
+		hangup := false
+		if first.name == "auth_good" && verdict == "accept" && npipe == 0 {
+			hangup = vsched.Choose(2, "hangup") == 1
+		}
+		ctxt := fmt.Sprintf("first=%s verdict=%s setid=%v pipelined=%d when=%d hangup=%v", first.name, verdict, renames, npipe, when, hangup)
 
 		raw, sc := vnet.Pipe(vnet.NewAddr(), vnet.NewAddr())
 		var sess erpc.Session
@@ -96,7 +106,7 @@ func c16(p Params) func() {
 					raw.Write(app(i))
 				}
 			}
-			if first.name == "nothing" || strings.HasPrefix(first.name, "prefix") {
+			if first.name == "nothing" || strings.HasPrefix(first.name, "prefix") || hangup {
 				raw.Close()
 				return
 			}
@@ -112,6 +122,10 @@ func c16(p Params) func() {
 		vsched.Join(acceptor)
 		vsched.Quiesce()
 		accepted := first.name == "auth_good" && verdict == "accept"
+		if hangup {
+			// whether the verdict could still be written depends on the schedule; both outcomes are legal
+			accepted = accStat.OK()
+		}
 		perMsgHooks := 0
 		for _, t := range trace {
 			if !strings.Contains(t, ".postaccept#") && !strings.Contains(t, ".postdisconnect#") && !strings.Contains(t, ".prereadheader#") {
@@ -145,15 +159,23 @@ func c16(p Params) func() {
 				vsched.Failf("the rejected connection was not closed by the server | %s", ctxt)
 			}
 			if n := srv.CountSession(); n != 0 {
-				vsched.Failf("a rejected connection is listed as a session (CountSession=%d) | %s", n, ctxt)
+				vsched.Failf("a rejected connection is listed as a session (CountSession=%d, index %v) | %s", n, sessionsOf(srv), ctxt)
+			}
+			if _, ok := srv.GetSession("user-7"); ok {
+				vsched.Failf("a rejected connection can be looked up under the id its checker assigned | %s", ctxt)
 			}
 			world.Counter("rejected")
 		} else {
 			if !accStat.OK() {
 				vsched.Failf("valid authentication was rejected: %s | %s", world.StatStr(accStat), ctxt)
 			}
-			if authReplies != 1 {
+			if authReplies != 1 && !hangup {
 				vsched.Failf("accepted connection got %d AUTH_REPLY frames | %s", authReplies, ctxt)
+			}
+			if renames {
+				if got, ok := srv.GetSession("user-7"); sess.ID() != "user-7" || (!hangup && (!ok || got != sess)) {
+					vsched.Failf("accepted connection is not indexed under the id its checker assigned (id %q, index %v) | %s", sess.ID(), sessionsOf(srv), ctxt)
+				}
 			}
 			if handled != npipe {
 				vsched.Failf("accepted connection: %d handler invocations for %d application frames | %s", handled, npipe, ctxt)
